@@ -21,6 +21,8 @@ pub enum Expect {
     /// macro panics and the message contains all of these
     PanicWith(Vec<String>),
     Any,
+    /// an assert macro where the model does not decide: it may pass or panic
+    AnyOrPanic,
 }
 
 #[derive(Clone, Debug)]
@@ -1054,7 +1056,7 @@ impl Model {
             },
             "write_all" => {
                 // an acting macro performs the operation: afterwards the file holds the data
-                effect(Op::WriteAll { p: pa.clone(), d: Bytes(text.clone().into_bytes()) })
+                effect(Op::WriteAll { p: pa.clone(), d: d.clone().unwrap_or_default() })
                     .into_iter()
                     .map(|(okk, n)| {
                         let t = after(&n);
@@ -1466,7 +1468,19 @@ impl Model {
                 },
                 None => same(Expect::Any),
             },
-            Op::Macro { name, a, b, mode, d } => self.macro_eval(name, a, b, *mode, d),
+            Op::Macro { name, a, b, mode, d } => self
+                .macro_eval(name, a, b, *mode, d)
+                .into_iter()
+                .map(|mut al| {
+                    if matches!(al.expect, Expect::Any) {
+                        // undecided by the model: pass or panic, and whatever the underlying
+                        // call did before the macro made up its mind
+                        al.expect = Expect::AnyOrPanic;
+                        al.next = Next::Resync(vec!["/".into()]);
+                    }
+                    al
+                })
+                .collect(),
             Op::Expand { .. } | Op::UserDir { .. } | Op::Getrids { .. } | Op::PathFn { .. } => same(Expect::Any),
         }
     }
@@ -1557,6 +1571,7 @@ pub fn matches_expect(e: &Expect, out: &Outcome) -> bool {
             _ => false,
         },
         Expect::Any => !matches!(out, Outcome::Panic(_)),
+        Expect::AnyOrPanic => true,
     }
 }
 
@@ -1572,6 +1587,7 @@ pub fn expect_text(e: &Expect) -> String {
         Expect::Traversal => "Ok(traversal)".into(),
         Expect::PanicWith(_) => "Panic".into(),
         Expect::Any => "Any".into(),
+        Expect::AnyOrPanic => "Any".into(),
     }
 }
 
